@@ -5,10 +5,10 @@
        re-checked against tables regenerated from the running printer and parser;
    (2) the whole value printer (Sys/Printer.v, rel/value_repr.go and the Format methods) against
        the literal reader (Sys/Reader.v) at the level of tokens: numbers, tuples with identifier
-       and quoted names, {}, true, generic and union sets, dicts and relations, nested in any way,
-       for EVERY order in which the members are enumerated.  Missing from (2): values containing a
-       string, byte array or array (the list lemmas for array cells are proved, the three cases
-       of the main induction are not), and the lexer (characters to tokens).
+       and quoted names, {}, true, strings, byte arrays, arrays with offsets and holes, generic and
+       union sets, dicts and relations, nested in any way, for EVERY order in which the members are
+       enumerated (C12_print_read_round_trip over printable_all; the _partial statements are its
+       restriction to values without sequences).  Missing from (2): the lexer (characters to tokens).
    The printer model as a whole (sequences included) is compared with fu.Repr byte for byte, and
    the reader model with syntax.EvaluateExpr, on every run (Check/C12Check.v). *)
 From Arrai Require Import Base.Val Sys.Escape Gen.Escapes Proofs.EscapeP.
